@@ -182,7 +182,11 @@ func Build(src, outDir, rtFile string, plain bool) (*Result, error) {
 		// generated state dump
 		var sb strings.Builder
 		fmt.Fprintf(&sb, "package %s\n\nimport %s %q\n\n", p.pkg.Name(), rtName, RtPath)
-		sb.WriteString("// VerifState dumps every package-level variable (generated).\nfunc VerifState() []string {\n\treturn []string{\n")
+		fn := "VerifState"
+		if p.rel != "" {
+			fn = "VerifState_" + p.short
+		}
+		sb.WriteString("var _ = " + rtName + ".Dump\n\n// " + fn + " dumps every package-level variable (generated).\nfunc " + fn + "() []string {\n\treturn []string{\n")
 		for _, v := range p.globals {
 			fmt.Fprintf(&sb, "\t\t%q + %s.Dump(%s),\n", v.Name()+"=", rtName, v.Name())
 		}
